@@ -699,6 +699,17 @@ class C09(ClientProp):
                            [(84, 0xC3), (85, 0x28)], [(91, 0xE2)], [(84, 0), (85, 0), (86, 0), (87, 0), (88, 0), (89, 0), (90, 0), (91, 0)]]
             else:
                 corrupt = [[(78, 1), (79, 1)], [(78, 2)], [(79, 255)], [(78, 0), (79, 2)]]
+            # a well-formed reply whose numeric fields are all zero / all at their ceiling, in either state: a device that was
+            # switched on this very second reports ON with nothing elapsed and nothing left
+            if name == "get_state":
+                for st_ in (0, 1):
+                    for blk in (range(77, 101), range(89, 97), range(89, 93), range(93, 97), range(77, 81)):
+                        corrupt.append([(75, st_)] + [(k, 0) for k in blk])
+                    corrupt.append([(75, st_)] + [(k, v) for a in (77, 81, 89, 93, 97) for k, v in ((a, 255), (a + 1, 255), (a + 2, 255 if a == 77 else 0), (a + 3, 0))])
+            elif name == "get_breeze_state":
+                corrupt += [[(76, 0), (77, 0)], [(76, 255), (77, 127)], [(80, 0)], [(80, 255)]]
+            else:
+                corrupt += [[(75, 0), (76, 0)], [(75, 100), (76, 0)], [(75, 255), (76, 255)]]
             for c in corrupt:
                 variants.append({"t": "mutate", "of": base, "set": c})
             for v in variants:
